@@ -79,6 +79,27 @@ CHECKS = {
          "examples reachable per split are exactly previous + newly written; Dataset.create on an existing dataset raises and leaves all files byte-identical.",
     note="Same model and externals as C04.",
     ref="DESIGN.md §5 C08"),
+ "C05": dict(
+    technique="Lean 4 proof (check completeness on exact trees; detection of any altered/removed/replaced list or shard file by induction along the check's two passes, under a per-pair no-collision premise) + fault enumeration against the real Dataset.check",
+    text="C05_check_complete, C05_check_after_history, C05_detects_list_file, C05_detects_shard_file, C05_root_checksum. Faults (bit flips, truncation, extension, deletion, sibling swap, "
+         "roll-back to an older committed version, description flip with expected checksums, in-place flip with size and mtime preserved) are planted on every sampled reachable file of "
+         "committed flat and nested datasets with 1..13 algorithms; the real check must raise for each and pass on the untouched dataset.",
+    note="Hash functions are external; detection is stated for modifications whose new digest differs from the recorded one (checked by the harness for every planted fault).",
+    ref="DESIGN.md §5 C05"),
+ "C06": dict(
+    technique="Lean 4 proof (invariants over every reachable state of the file-system-effect LTS M-CRASH: listed => closed, children first, description last, monotone reachability; every prefix of an accepted trace is a state) + acceptance of the real code's audit-hook effect trace + recovery oracle on a snapshot at every effect boundary incl. torn variants",
+    text="C06_invariant, C06_reachable_complete, C06_committed_kept, C06_children_first, C06_closed_stays, C06_every_prefix_is_a_state, C06_partial_writes_invisible. Real sessions (first/continued, root/sub/nested, "
+         "multi-writer) run under an audit hook; the directory is snapshotted before every open/rename/mkdir/remove, after every rename and after every write_example; every snapshot (and torn variants) is reopened: "
+         "metadata parse, reachable shards complete and matching checksums, committed examples present, only whole written examples.",
+    note="Atomic rename, 'a process crash loses no completed write', fresh uuid names are assumptions; TensorFlow's native writes are observed via results; concurrent reader = a crash state.",
+    ref="DESIGN.md §5 C06, Appendix A.4"),
+ "C09": dict(
+    technique="Lean 4 proof (the store after any interleaving of writers with disjoint directories equals the sequential run: locality of append effects + projection argument) + real multi-process runs under strace compared with the single-process run, M-TREE and the recount oracle",
+    text="C09_interleaving_eq_sequential, C09_writer_footprint, C09_multiwriter_eq_sequential, C09_no_shared_file. write_multiprocessing runs with real worker processes (1-4 and cpu_count+2 writers, uneven loads, "
+         "idle writers, seeded delays); result must equal the single_process run, be exact (recount, check()), keep each writer's order, return values in argument order; strace -f gives per-process write sets "
+         "which must be pairwise disjoint and inside the writer's own directory.",
+    note="multiprocessing.Pool (ordered imap, pickling) is a specified external; relative speeds are perturbed by delays, not controlled.",
+    ref="DESIGN.md §5 C09"),
 }
 
 def main():
